@@ -40,44 +40,52 @@ func propC19(c *Ctx) {
 	})
 
 	c.Rule("C19.R2", func() {
-		fn := c.Method(hookPkg, "BridgeHook", "registerChannelAdmin")
-		o := c.Ob("C19.R2", "registerChannelAdmin: SetAdmin only for an existing, unused, untaken channel")
-		for _, p := range c.Paths(fn, PO{Params: []string{"h", "ctx", "portID", "channelID", "admin"}}) {
-			o.Paths++
-			o.Facts += p.NFacts()
-			for _, i := range p.Find(func(ev *Event) bool {
-				return ev.Kind == EvCall && strings.HasSuffix(ev.Call.Name, "PermKeeper).SetAdmin")
-			}) {
-				o.Sites++
-				ev := &p.Events[i]
-				a := ev.Call.Args
-				if a[2].Key() != "portID" || a[3].Key() != "channelID" || a[4].Key() != "admin" {
-					o.Fail(c.evPos(ev), "SetAdmin("+a[2].Key()+", "+a[3].Key()+", "+a[4].Key()+")", c.Dump(p, i))
-				}
-				var seq, taken *Term
-				for j := 0; j < i; j++ {
-					e2 := &p.Events[j]
-					if e2.Kind == EvCall && strings.HasSuffix(e2.Call.Name, "ChannelKeeper).GetNextSequenceSend") && e2.Call.Args[2].Key() == "portID" && e2.Call.Args[3].Key() == "channelID" {
-						seq = e2.Call
+		// decided at the hooks (the registration helper, whatever it is called and whichever
+		// receiver or parameters it has, is inlined): in BridgeCreated and BridgeMetadataUpdated
+		// every SetAdmin needs, for the very same (port, channel): the channel exists, its next
+		// send sequence is 1, and IsTaken == (false, nil)
+		for _, hn := range []string{"BridgeCreated", "BridgeMetadataUpdated"} {
+			fn := c.Method(hookPkg, "BridgeHook", hn)
+			o := c.Ob("C19.R2", hn+": SetAdmin only for an existing, unused, untaken channel (fresh-and-free registration)")
+			for _, p := range c.Paths(fn, PO{Params: []string{"h", "ctx", "bridgeId", "cfg"}, NoInline: []string{"hasPermChannels"}, Pure: []string{"hasPermChannels"}, Visits: 3}) {
+				o.Paths++
+				o.Facts += p.NFacts()
+				for _, i := range p.Find(func(ev *Event) bool {
+					return ev.Kind == EvCall && strings.HasSuffix(ev.Call.Name, "PermKeeper).SetAdmin")
+				}) {
+					o.Sites++
+					ev := &p.Events[i]
+					n := len(ev.Call.Args)
+					port, ch := ev.Call.Args[n-3].Key(), ev.Call.Args[n-2].Key()
+					var seq, taken *Term
+					for j := 0; j < i; j++ {
+						e2 := &p.Events[j]
+						if e2.Kind != EvCall {
+							continue
+						}
+						m := len(e2.Call.Args)
+						if strings.HasSuffix(e2.Call.Name, "ChannelKeeper).GetNextSequenceSend") && m >= 2 && e2.Call.Args[m-2].Key() == port && e2.Call.Args[m-1].Key() == ch {
+							seq = e2.Call
+						}
+						if strings.HasSuffix(e2.Call.Name, "PermKeeper).IsTaken") && m >= 2 && e2.Call.Args[m-2].Key() == port && e2.Call.Args[m-1].Key() == ch {
+							taken = e2.Call
+						}
 					}
-					if e2.Kind == EvCall && strings.HasSuffix(e2.Call.Name, "PermKeeper).IsTaken") && e2.Call.Args[2].Key() == "portID" && e2.Call.Args[3].Key() == "channelID" {
-						taken = e2.Call
+					exists := seq != nil && p.factIs(i, seq.String()+".1", true)
+					fresh := false
+					if seq != nil {
+						rel, nr := p.Relation(i, func(t *Term) bool { return t.String() == seq.String()+".0" }, keyIs("1"))
+						fresh = nr > 0 && rel == rEQ
 					}
-				}
-				exists := seq != nil && p.factIs(i, seq.String()+".1", true)
-				fresh := false
-				if seq != nil {
-					rel, n := p.Relation(i, func(t *Term) bool { return t.String() == seq.String()+".0" }, keyIs("1"))
-					fresh = n > 0 && rel == rEQ
-				}
-				free := taken != nil && p.factIs(i, taken.String()+".0", false) && p.factIs(i, "("+taken.String()+".1 == nil)", true)
-				if !exists || !fresh || !free {
-					o.Fail(c.evPos(ev), fmt.Sprintf("admin granted without: channel exists [%v], next send sequence == 1 [%v], IsTaken == (false,nil) [%v]", exists, fresh, free), c.Dump(p, i))
+					free := taken != nil && p.factIs(i, taken.String()+".0", false) && p.factIs(i, "("+taken.String()+".1 == nil)", true)
+					if !exists || !fresh || !free {
+						o.Fail(c.evPos(ev), fmt.Sprintf("admin granted without (same port/channel): channel exists [%v], next send sequence == 1 [%v], IsTaken == (false,nil) [%v]", exists, fresh, free), c.Dump(p, i))
+					}
 				}
 			}
-		}
-		if o.Sites == 0 {
-			o.Fail(c.W.Pos(fn.Pos()), "no SetAdmin reached", nil)
+			if o.Sites == 0 {
+				o.Fail(c.W.Pos(fn.Pos()), "no SetAdmin reached", nil)
+			}
 		}
 	})
 
@@ -127,7 +135,7 @@ func propC19(c *Ctx) {
 		for _, hn := range []string{"BridgeCreated", "BridgeChallengerUpdated", "BridgeMetadataUpdated"} {
 			fn := c.Method(hookPkg, "BridgeHook", hn)
 			o := c.Ob("C19.R3", hn+": every perm-keeper call is gated by hasPermChannels(config.Metadata); admin is the decoded config challenger")
-			po := PO{Params: []string{"h", "ctx", "bridgeId", "cfg"}, NoInline: []string{"hasPermChannels", "registerChannelAdmin"}, Pure: []string{"hasPermChannels"}, Visits: 3}
+			po := PO{Params: []string{"h", "ctx", "bridgeId", "cfg"}, NoInline: []string{"hasPermChannels"}, Pure: []string{"hasPermChannels"}, Visits: 3}
 			for _, p := range c.Paths(fn, po) {
 				o.Paths++
 				o.Facts += p.NFacts()
@@ -136,7 +144,7 @@ func propC19(c *Ctx) {
 					if ev.Kind != EvCall {
 						continue
 					}
-					isPerm := strings.Contains(ev.Call.Name, "PermKeeper).") || strings.HasSuffix(ev.Call.Name, "BridgeHook).registerChannelAdmin")
+					isPerm := strings.Contains(ev.Call.Name, "PermKeeper).")
 					if !isPerm {
 						continue
 					}
@@ -147,17 +155,22 @@ func propC19(c *Ctx) {
 					if !gated {
 						o.Fail(c.evPos(ev), methodOf(ev.Call.Name)+" reachable without hasPermChannels(cfg.Metadata) == true", c.Dump(p, i))
 					}
-					admin := ev.Call.Args[len(ev.Call.Args)-1]
-					if d := decodedFromH(admin); d == nil || d.Key() != "cfg.Challenger" {
-						o.Fail(c.evPos(ev), methodOf(ev.Call.Name)+" uses admin "+trunc(admin.Key(), 100)+", want the decoded cfg.Challenger", c.Dump(p, i))
+					na := len(ev.Call.Args)
+					port, ch := ev.Call.Args[na-3], ev.Call.Args[na-2]
+					if m := methodOf(ev.Call.Name); m == "IsTaken" {
+						port, ch = ev.Call.Args[na-2], ev.Call.Args[na-1] // IsTaken(ctx, port, channel): no admin operand
+					} else {
+						admin := ev.Call.Args[na-1]
+						if d := decodedFromH(admin); d == nil || d.Key() != "cfg.Challenger" {
+							o.Fail(c.evPos(ev), m+" uses admin "+trunc(admin.Key(), 100)+", want the decoded cfg.Challenger", c.Dump(p, i))
+						}
 					}
 					// channel operands come from the decoded metadata list
-					port, ch := ev.Call.Args[len(ev.Call.Args)-3], ev.Call.Args[len(ev.Call.Args)-2]
 					if !strings.HasPrefix(port.Key(), "ophost/types/hook.hasPermChannels(cfg.Metadata).1.PermChannels[") || !strings.HasSuffix(port.Key(), ".PortID") ||
 						!strings.HasSuffix(ch.Key(), ".ChannelID") || strings.TrimSuffix(port.Key(), ".PortID") != strings.TrimSuffix(ch.Key(), ".ChannelID") {
 						o.Fail(c.evPos(ev), "channel operands ("+trunc(port.Key(), 80)+", "+trunc(ch.Key(), 80)+") are not one element of the decoded perm_channels", c.Dump(p, i))
 					}
-					if hn == "BridgeMetadataUpdated" && strings.HasSuffix(ev.Call.Name, "registerChannelAdmin") {
+					if hn == "BridgeMetadataUpdated" && strings.HasSuffix(ev.Call.Name, "PermKeeper).SetAdmin") {
 						// only when the challenger is not yet admin of this very channel
 						ok := p.HasFact(i, func(a *Term, pol bool) bool {
 							if pol || a.Op != "extract" || a.Name != "0" || !strings.HasSuffix(a.Args[0].Name, "PermKeeper).HasAdminPermission") {
@@ -176,7 +189,7 @@ func propC19(c *Ctx) {
 					for i := range p.Events {
 						ev := &p.Events[i]
 						if ev.Kind == EvFact && !ev.Pol {
-							if x := eqOther(ev.Cond, "nil"); x != nil && x.Op == "call" && (strings.Contains(x.Name, "PermKeeper).SetAdmin") || strings.HasSuffix(x.Name, "registerChannelAdmin")) {
+							if x := eqOther(ev.Cond, "nil"); x != nil && x.Op == "call" && strings.Contains(x.Name, "PermKeeper).SetAdmin") {
 								o.Fail(c.evPos(ev), "a failed grant does not fail the hook", c.Dump(p, -1))
 							}
 						}
